@@ -103,6 +103,7 @@ type Gen struct {
 	synOwner    map[int]int
 	nextSynTag  int
 	cutHook     func()
+	cutBase     *cutBaseState // state at the entry of the unrolled loop: later iterations are havocked relative to it
 	obls        []*Obligation
 	ncnt        int
 	kcnt        map[string]int
@@ -1279,10 +1280,14 @@ func (g *Gen) walkUnrolled(li *loopInfo, body []*ssa.BasicBlock, n int) {
 	ins := g.incoming(h, false)
 	entryTag, savedOverride := g.effTag(), g.tagOverride
 	var iterTags []int
+	var base *cutBaseState
 	for iter := 0; iter <= n; iter++ {
 		g.unrollTag = fmt.Sprintf("%s.u%d", savedTag, iter)
 		if !g.enterBlock(h, ins) {
 			break
+		}
+		if len(li.spec.Inv) > 0 && iter == 0 {
+			base = &cutBaseState{heap: copyMap(g.heap), nextobj: g.nextobj}
 		}
 		if len(li.spec.Inv) > 0 {
 			// cut point: the invariant is checked, everything except constant-step counters is forgotten, and the
@@ -1309,10 +1314,17 @@ func (g *Gen) walkUnrolled(li *loopInfo, body []*ssa.BasicBlock, n int) {
 				}
 				g.keepPhi[phi] = constStep
 			}
+			thisIter := iter
 			g.cutHook = func() {
 				t := g.newIterTag(entryTag, g.tagOf(h))
 				iterTags = append(iterTags, t)
 				g.tagOverride = t
+				if thisIter > 0 && base != nil {
+					// the state at the head of a later iteration is the loop-entry state with the loop's write set
+					// havocked (the same abstraction an invariant loop uses), not a chain through earlier iterations
+					g.heap = copyMap(base.heap)
+					g.nextobj = base.nextobj
+				}
 			}
 			g.loopEntryEdges(li, ins)
 			g.cutHook = nil
@@ -1559,6 +1571,11 @@ func (g *Gen) effTag() int {
 		return g.tagOverride
 	}
 	return g.curTag
+}
+
+type cutBaseState struct {
+	heap    map[string]string
+	nextobj string
 }
 
 const synTagBase = 1 << 20
